@@ -310,11 +310,11 @@ def _skolem_consts(goal, acc, seen):
 
 def _instances(f, consts, out, depth=0):
     """Instances of positive universal quantifiers of premise f over the goal's skolem constants."""
-    if depth > 3 or len(out) > 64:
+    if depth > 3 or len(out) > 400:
         return
     if z3.is_quantifier(f) and f.is_forall():
         n = f.num_vars()
-        if any(f.var_sort(i) != z3.IntSort() for i in range(n)) or len(consts) ** n > 16:
+        if any(f.var_sort(i) != z3.IntSort() for i in range(n)) or len(consts) ** n > 36:
             return
         import itertools
         for tup in itertools.product(consts, repeat=n):
@@ -335,11 +335,44 @@ def premise_instances(premises, goal):
     consts, seen = [], set()
     _skolem_consts(goal, consts, seen)
     out = []
-    if not consts or len(consts) > 4:
+    if not consts or len(consts) > 6:
         return out
     for p in premises:
         _instances(p, consts, out)
     return out
+
+
+def _has_quant(t, seen=None):
+    seen = seen if seen is not None else set()
+    if t.get_id() in seen:
+        return False
+    seen.add(t.get_id())
+    if z3.is_quantifier(t):
+        return not t.is_lambda() or _has_quant(t.body(), seen)
+    return any(_has_quant(c, seen) for c in t.children())
+
+
+def _stage_ground(premises, goal, timeout_ms):
+    """Quantifier-free attempt: the quantified premises are replaced by their instances at the goal's skolem
+    constants (a subset of their consequences, so a proof here is a proof)."""
+    inst = premise_instances(premises, goal)
+    if not inst:
+        return z3.unknown
+    ground = [p for p in premises if not _has_quant(p)] + [p for p in inst if not _has_quant(p)]
+    if _has_quant(goal):
+        return z3.unknown
+    cache = {}
+    s = _tactic_solver(timeout_ms)
+    fs = [abstract_nl(p, cache) for p in ground]
+    g = abstract_nl(goal, cache)
+    for f in fs:
+        s.add(f)
+    for ax in _mul_axioms():
+        s.add(ax)
+    for h in _ground_mul_hints(fs + [g]):
+        s.add(h)
+    s.add(z3.Not(g))
+    return s.check()
 
 
 def _stage_abstract(premises, goal, timeout_ms, ground=False):
@@ -378,6 +411,11 @@ def check_valid(premises, goal, timeout_ms=10000, want_model=True, use_cvc5=True
     budgets = [min(1500, timeout_ms), timeout_ms] if timeout_ms > 3000 else [timeout_ms]
     for budget in budgets:
         if hints:
+            try:
+                if _stage_ground(premises, sk_goal, budget) == z3.unsat:
+                    return Result("proved", "z3-%s/ground-instances" % z3.get_version_string(), time.time() - t0)
+            except z3.Z3Exception:
+                pass
             for ground in (True, False):
                 try:
                     r = _stage_abstract(premises, sk_goal, budget, ground)
